@@ -15,6 +15,9 @@ CLAIMS = {
  "C04": "Theorems C04_* : Epoch +/- Duration/Unit keeps the scale and changes the count by clamp(exact); (e+d)-e=d, (e+d)-d=e, e+(f-e)=f under explicit no-saturation hypotheses; difference measured in the left operand's scale. Epoch + f64 seconds: correspondence only so far.",
  "C05": "Theorems C05_* : for all 36 ordered pairs of uniform scales conversion is exact with the constant offsets written from the property text (dates via the calendar spec), identity, round trip, commutes with adding a duration; every duplicated constant in the sources is proved equal to them.",
  "C06": "Theorems C06_* : built-in table = IERS file = NAIF kernel (closed facts over regenerated tables); the two lookups are the spec's step functions for every duration; UTC->TAI strictly increasing; TAI->UTC(UTC->TAI u) = u for every u; TAI->UTC monotone outside the inserted seconds (any sorted table). File-provider parser: correspondence only so far.",
+ "C08": "Theorems C08_* : the day count (closed form) equals the sum of year and month lengths; every valid date-time with second < 60, any year within 3 000 000 years of 1900, all nine scales, is accepted and lands exactly civil_ns - calendar zero; whatever is accepted satisfies the field ranges and second = 60 only at 23:59 of a day preceding a table entry (year lists = table, closed fact); rejected input is an error. Known finding: 30/31 February accepted in leap years (pinned by tests/epoch.rs).",
+ "C09": "Theorems C09_* : the fields are civil_of_days(floor(count/day)) + time of day of the remainder, always a valid date-time, fields -> epoch returns the identical epoch and epoch(fields) -> fields returns the fields (both directions, all nine scales, years within 3 000 000 of 1900); era block proved by an exhaustive sweep of one 146 097-day period lifted by periodicity. Display text: correspondence (C10/C19 work).",
+ "C16": "Theorems C16_* : weekday = floored day count in the scale mod 7 for every instant; exhaustive 7x256 / 7x7 weekday algebra (vm_compute over the finite domain, stated with bounds); next/previous move exactly 1..7 whole days = distance to the requested weekday. Landing on the requested weekday across an inserted UTC second: correspondence (partial).",
  "C12": "Theorems C12_* : for the seven integer scales (uniform + UTC) cmp/== are exactly comparison/equality of the denoted TAI instants, flipped by operand swap, instants preserved by conversion. ET/TDB operands: 100 ns clause by correspondence (partial).",
  "C14": "Theorems C14_* : floor = greatest multiple of |s| not above d, ceil = floor+|s| clamped, round nearest with ties up, zero step -> 0, for all canonical d, s outside the recorded known finding (floor within one step of MIN, pinned by the repo's own test).",
  "C15": "Theorems C15_* : from every reachable iterator state, the i-th call of next yields start + (j+i)*step exactly (in start's scale) while j+i < N and None for ever after, N = #{k : k*step < span} or <=; induction on the number of calls, unbounded.",
